@@ -3,7 +3,8 @@
 From Coq Require Import ZArith List Bool Permutation QArith.
 From DV Require Import Model.PyPrims Model.C06Model Model.C06Queue Model.C06Hist Model.C06GenPrims Gen.TreeArrayGen
      Proofs.C06Lemmas Proofs.C06Proofs Proofs.C06Sched Proofs.C06QueueProofs Proofs.C06QueueSched
-     Proofs.C06GenProofs Proofs.C06GenSched Proofs.C06Hist.
+     Proofs.C06GenProofs Proofs.C06GenSched Proofs.C06Hist
+     Model.C06Read Proofs.C06ReadProofs Proofs.C06GenRead.
 Import ListNotations.
 Open Scope Z_scope.
 
@@ -501,3 +502,93 @@ Theorem source_handout_protocol_total : forall (A : Type) (files : list A) (n : 
               w_recv x = worker_files (mkSched n (firstn (length files) (gets_of acts)) (p_results s)) files w.
 Proof. exact source_handout_total_l. Qed.
 Print Assumptions source_handout_protocol_total.
+
+(* ======================================================================================== *)
+(* 8. Several SOURCES read with a per-source burn-in (TreeArray.read_from_files, keyword      *)
+(*    tree_offset; SumTrees --burnin).  The tree yielder is an input: the list of             *)
+(*    (current_file_index, tree) pairs; `yield_from 0 srcs` is what it delivers for sources   *)
+(*    holding the trees srcs (a source WITHOUT trees - NEXUS file with only a TAXA block or   *)
+(*    an empty TREES block - contributes no pair, so the index skips a value).                *)
+(* ======================================================================================== *)
+
+(* 8.1 The burn-in counter loop (hand model of the loop of read_from_files; either form of add_tree)
+       on the yielder's output for ANY list of sources - tree-less ones in any position, any
+       tree_offset - adds exactly the trees of every source minus its first tree_offset ones, in
+       order, and stops at the first exception like add_tree one by one does. *)
+Theorem read_from_files_is_per_source_burnin : forall (vu : bool) (t : tarr) (off : Z) (srcs : list (list trec)),
+  read_from_files_v vu t off (yield_from 0 srcs)
+  = add_all_v vu t (concat (map (skipn (Z.to_nat off)) srcs)).
+Proof. exact read_from_files_per_source. Qed.
+Print Assumptions read_from_files_is_per_source_burnin.
+
+(* 8.2 One serial pass over all sources = one read_from_files / read_from_path call per source on the
+       same array (what a worker process does with the files it fetches). *)
+Theorem read_serial_equals_one_call_per_source : forall (vu : bool) (t : tarr) (off : Z) (srcs : list (list trec)),
+  read_from_files_v vu t off (yield_from 0 srcs) = read_each_v vu t off srcs.
+Proof. exact read_serial_eq_read_each. Qed.
+Print Assumptions read_serial_equals_one_call_per_source.
+
+(* 8.3 Translator tie: the loop GENERATED from the current source equals the hand model on every
+       sequence of (file index, tree) pairs (grouped by source or not), for every tree_offset. *)
+Theorem gen_read_from_files_refines : forall (t : tarr) (off : Z) (ys : list (Z * trec)),
+  gen_read_from_files t off ys = read_from_files_v true t off ys.
+Proof. exact gen_read_from_files_eq. Qed.
+Print Assumptions gen_read_from_files_refines.
+
+(* 8.4 Hence the generated read_from_files on the yielder's output = the generated add_tree over the
+       per-source lists with their first tree_offset trees dropped. *)
+Theorem gen_read_from_files_per_source_burnin : forall (t : tarr) (off : Z) (srcs : list (list trec)),
+  gen_read_from_files t off (yield_from 0 srcs)
+  = gen_add_all t (concat (map (skipn (Z.to_nat off)) srcs)).
+Proof. exact gen_read_from_files_per_source. Qed.
+Print Assumptions gen_read_from_files_per_source_burnin.
+
+(* 8.5 The property for the generated SumTrees pipeline WITH a burn-in: serial mode (one
+       read_from_files over all files) and every schedule of worker processes (each worker one
+       read_from_files call per file it fetched, results collated in any arrival order; files without
+       trees, workers without files included) give the same summary. *)
+Theorem burnin_schedule_irrelevant_generated :
+  forall (c : cfg) (rooted : bool) (off : Z) (s : sched) (files : list (list trec)),
+  (c_rooting c = None \/ c_rooting c = Some rooted) ->
+  Forall (fun x => tr_rooted x = rooted /\ (c_ign_ages c = false -> tr_ages_err x = None)) (concat files) ->
+  ((1 <= s_workers s)%nat /\
+   length (s_assign s) = length files /\
+   Forall (fun w => (w < s_workers s)%nat) (s_assign s) /\
+   Permutation (s_arrival s) (seq 0 (s_workers s))) ->
+  exists m t, gen_parallel_b c off s files = (m, None) /\ gen_serial_b c off files = (t, None) /\ same_summary m t.
+Proof. exact burnin_schedule_irrelevant_generated_l. Qed.
+Print Assumptions burnin_schedule_irrelevant_generated.
+
+(* the hypotheses are satisfiable: three files, the middle one without trees, burn-in 1, two workers,
+   the worker of the last file arrives first; 2 of the 4 trees survive in either mode *)
+Theorem burnin_hypotheses_satisfiable :
+  exists m t,
+    gen_parallel_b (mkCfg None false true false) 1 (mkSched 2 [0; 1; 1]%nat [1; 0]%nat) ex_sources = (m, None) /\
+    gen_serial_b (mkCfg None false true false) 1 ex_sources = (t, None) /\
+    length (ta_splits m) = 2%nat /\ length (ta_splits t) = 2%nat /\
+    ta_splits m = rev (ta_splits t).
+Proof. exact burnin_schedule_example. Qed.
+Print Assumptions burnin_hypotheses_satisfiable.
+
+(* 8.6 The restart test of the loop matters.  The loop that restarts the per-source count when the
+       yielder's file index EQUALS THE NUMBER OF SOURCES STARTED SO FAR (instead of: differs from the
+       previous tree's) is refuted by three sources whose middle one has no trees: with burn-in 1 it
+       keeps 3 trees (both trees of the last source), the per-source definition keeps 2. *)
+Theorem restart_on_count_of_started_sources_refuted :
+  exists t1 t2,
+    read_loop_started ex_array 1 0 0 (yield_from 0 ex_sources) = (t1, None) /\
+    read_from_files_v false ex_array 1 (yield_from 0 ex_sources) = (t2, None) /\
+    length (ta_splits t1) = 3%nat /\ length (ta_splits t2) = 2%nat /\
+    cnt 5 (sd_counts (ta_sd t1)) = 2 * UNITW /\ cnt 5 (sd_counts (ta_sd t2)) = UNITW.
+Proof. exact restart_on_count_of_started_sources_wrong. Qed.
+Print Assumptions restart_on_count_of_started_sources_refuted.
+
+(* 8.7 gen_serial_b / gen_parallel_b above are how SumTrees uses read_from_files: facts read off
+       sumtrees._read_into_tree_array, TreeAnalysisWorker.run/__init__, serial_analyze_trees and
+       parallel_analyze_trees by the translator (quiet mode is read_from_files(files=tree_sources,
+       tree_offset=tree_offset); serial mode passes all sources, a worker one fetched source per call;
+       both pass the caller's tree_offset).  The progress-logging loop (log_frequency > 0) is exercised
+       by the correspondence check only. *)
+Theorem source_burnin_wiring : source_burnin_reaches_read_from_files = true.
+Proof. exact source_burnin_wiring_l. Qed.
+Print Assumptions source_burnin_wiring.
